@@ -2,24 +2,26 @@
 
 // Driver for property C17 (local latch scheduler). In-package access through
 // internal/latch/zz_verif_export.go (overlay). Three parts:
-//   1. DFS over ALL interleavings of the atomic latch methods (acquireSlot / releaseSlot / recycle,
-//      plus the composite acquire / release / wakeup as macro edges) for small configurations,
-//      with state hashing; every edge is printed with the implementation's result and a dump of
-//      every slot / lock so that the extracted Coq model can be run on the same edge (modelrun).
-//   2. seeded random walks on bigger configurations (same line protocol, no backtracking).
-//   3. seeded concurrent stress through the real LatchesScheduler with an exclusivity /
-//      staleness / termination monitor.
+//  1. DFS over ALL interleavings of the atomic latch methods (acquireSlot / releaseSlot / recycle,
+//     plus the composite acquire / release / wakeup as macro edges) for small configurations,
+//     with state hashing; every edge is printed with the implementation's result and a dump of
+//     every slot / lock so that the extracted Coq model can be run on the same edge (modelrun).
+//  2. seeded random walks on bigger configurations (same line protocol, no backtracking).
+//  3. seeded concurrent stress through the real LatchesScheduler with an exclusivity /
+//     staleness / termination monitor.
+//
 // Property oracles (exclusive, stale sound/complete, no lost wake-up, no deadlock) are evaluated
 // here on the implementation state after every edge, independently of the model.
 //
 // Lines (tab separated):
-//   CASE id spec | SF key slot | T i start commit keys => sortedkeys slots
-//   N op => res | dump      (edge; the model must accept op and produce the same res/dump)
-//   E ops...                (enabled edges at the node just entered, as the driver computed them)
-//   B                       (backtrack one level) | END
-//   P oracle caseid spec path detail   (oracle FAILED on the implementation)
-//   PS oracle count         (oracle evaluations that passed)
-//   STRESS name detail ok|fail
+//
+//	CASE id spec | SF key slot | T i start commit keys => sortedkeys slots
+//	N op => res | dump      (edge; the model must accept op and produce the same res/dump)
+//	E ops...                (enabled edges at the node just entered, as the driver computed them)
+//	B                       (backtrack one level) | END
+//	P oracle caseid spec path detail   (oracle FAILED on the implementation)
+//	PS oracle count         (oracle evaluations that passed)
+//	STRESS name detail ok|fail
 package main
 
 import (
@@ -980,10 +982,6 @@ func main() {
 						if ta.s > tb.s {
 							continue
 						}
-						// quick: a seeded half of the timestamp options; thorough: all
-						if !thorough && rng.Intn(4) != 0 {
-							continue
-						}
 						c := &config{size: sizes[pi], pat: pats[pi], txns: []txn{{shuffled(rng, a), ta.s, ta.c}, {shuffled(rng, b), tb.s, tb.c}}}
 						runDFS(fmt.Sprintf("d2-%d", n), c, 200000)
 						n++
@@ -993,9 +991,9 @@ func main() {
 		}
 	}
 	// D3: three transactions over the 3-key pool (<= 2 keys each, quick; <= 3 thorough), sampled configurations, exhaustive DFS each
-	nd3 := 60
+	nd3 := 150
 	if thorough {
-		nd3 = 1500
+		nd3 = 6000
 	}
 	opts5 := tsOptions(5)
 	subs := subsets(3, 2)
@@ -1013,9 +1011,9 @@ func main() {
 		runDFS(fmt.Sprintf("d3-%d", j), c, 60000)
 	}
 	// D4: four transactions x <= 3 keys from a 4-key pool, sampled, budgeted DFS (atomic edges only)
-	nd4 := 3
+	nd4 := 12
 	if thorough {
-		nd4 = 40
+		nd4 = 250
 	}
 	sub4 := subsets(4, 3)
 	for j := 0; j < nd4; j++ {
@@ -1030,9 +1028,9 @@ func main() {
 	}
 	// DR: recycle. Physical timestamps (units of 70 s), 6 keys in ONE slot so that count >= 5 triggers the
 	// in-line recycle, plus the external recycle step (what the recycle goroutine does, per slot).
-	ndr := 12
+	ndr := 20
 	if thorough {
-		ndr = 150
+		ndr = 600
 	}
 	sub6 := subsets(6, 3)
 	for j := 0; j < ndr; j++ {
@@ -1050,9 +1048,9 @@ func main() {
 		runDFS(fmt.Sprintf("dr-%d", j), c, 20000)
 	}
 	// walks: bigger configurations, random schedules
-	nw := 150
+	nw := 300
 	if thorough {
-		nw = 4000
+		nw = 20000
 	}
 	for j := 0; j < nw; j++ {
 		var tx []txn
@@ -1110,7 +1108,7 @@ func stress(seed int64, thorough bool) {
 		per := 150
 		sched := latch.NewScheduler(size)
 		var tso uint64 = 10
-		var owner = make([]int32, nkeys)      // 0 free, else worker+1
+		var owner = make([]int32, nkeys)       // 0 free, else worker+1
 		var lastCommit = make([]uint64, nkeys) // written by the holder before UnLock
 		var commitAnnounced = make([]uint64, nkeys)
 		var annMu sync.Mutex
